@@ -298,7 +298,7 @@ def run(ctx):
     import vopy.algorithms  # noqa: F401
     thorough = ctx.tier == "thorough"
     jobs = []
-    for dim, D, mn in ([(1, 4, 15), (2, 3, 13), (3, 2, 9)] + ([(1, 5, 19), (2, 3, 17)] if thorough else [])):
+    for dim, D, mn in ([(1, 4, 15), (2, 3, 13), (3, 2, 9)] + ([(1, 5, 17), (2, 2, 5)] if thorough else [])):
         res = tlc.run("VOTree", CFG % (dim, D, mn) + INVS, timeout=3000)
         ctx.add_tlc(res, "VOTree Dim=%d MaxDepth=%d" % (dim, D))
         if res.violated or not res.ok:
@@ -319,7 +319,7 @@ def run(ctx):
     ctx.evaluations += nref
     ctx.extra["refinements_replayed"] = nref
     run_ad(ctx, "C18")
-    ctx.rule = ("VOTree exhaustive for (dim, max depth) in {(1,4),(2,3),(3,2)}; simulate behaviours (dims 1-3) replayed into refine_design; real VOGP_AD runs on "
+    ctx.rule = ("VOTree exhaustive for (dim, max depth) in {(1,4),(2,3),(3,2)} (thorough: + (1,5) with 17 nodes: 10^7 states); simulate behaviours (dims 1-3) replayed into refine_design; real VOGP_AD runs on "
                 "1-, 2- and 3-dimensional problems validated per step; non-trivial = steps with a refinement or a change of S")
     ctx.assumptions += ["the GP hyper-parameter training set of VOGP_AD runs is reduced to 48 Sobol points (module-namespace substitution) to keep runs short",
                         "should_refine_design is an environment decision except for its depth gate"]
